@@ -390,6 +390,53 @@ class Interp:
         self._local_assign_cache[f] = out
         return out
 
+    def tuple_assigns(self, f: FuncInfo) -> dict[str, list[tuple[ast.expr, int]]]:
+        """name -> [(value expr, index)] for names bound by `a, b = <value>` in f's own body."""
+        cache = self.__dict__.setdefault("_tuple_assign_cache", {})
+        if f in cache:
+            return cache[f]
+        out: dict[str, list[tuple[ast.expr, int]]] = {}
+        for n in self.own_nodes(f):
+            if isinstance(n, ast.Assign) and len(n.targets) == 1 and isinstance(n.targets[0], (ast.Tuple, ast.List)):
+                elts = n.targets[0].elts
+                if all(isinstance(x, ast.Name) for x in elts):
+                    for i, x in enumerate(elts):
+                        out.setdefault(x.id, []).append((n.value, i))
+        cache[f] = out
+        return out
+
+    def record_fields(self, c: ClassInfo) -> list[str] | None:
+        """Field names, in constructor order, of a dataclass / NamedTuple without a hand-written __init__."""
+        if c.find_method("__init__") is not None:
+            return None
+        is_dc = any(norm(d).split("(")[0].split(".")[-1] == "dataclass" for d in c.node.decorator_list)
+        is_nt = any(isinstance(b, str) and b.split(".")[-1] == "NamedTuple" for b in c.bases) or any(norm(b).split(".")[-1] == "NamedTuple" for b in c.node.bases)
+        if not (is_dc or is_nt):
+            return None
+        out: list[str] = []
+        for k in reversed(c.repo_mro()):
+            for st in k.node.body:
+                if isinstance(st, ast.AnnAssign) and isinstance(st.target, ast.Name) and "ClassVar" not in norm(st.annotation):
+                    if isinstance(st.value, ast.Call) and any(kw.arg == "init" and isinstance(kw.value, ast.Constant) and kw.value.value is False for kw in st.value.keywords):
+                        continue
+                    if st.target.id not in out:
+                        out.append(st.target.id)
+        return out
+
+    def record_default(self, c: ClassInfo, name: str) -> ast.expr | None:
+        for k in c.repo_mro():
+            for st in k.node.body:
+                if isinstance(st, ast.AnnAssign) and isinstance(st.target, ast.Name) and st.target.id == name:
+                    if st.value is None:
+                        return None
+                    if isinstance(st.value, ast.Call) and norm(st.value.func).split(".")[-1] == "field":
+                        for kw in st.value.keywords:
+                            if kw.arg == "default":
+                                return kw.value
+                        return None
+                    return st.value
+        return None
+
     def own_nodes(self, f: FuncInfo):
         """AST nodes of f's body excluding nested function/class bodies."""
         stack = list(f.node.body)
@@ -453,26 +500,7 @@ class Interp:
                 return U
             return self._def_value(d)
         if isinstance(expr, ast.Attribute):
-            bt = p.type_of(fr.module, expr.value) if p._with_facts else None
-            if bt == PROTOCOL_TYPE and fr.V is not None:
-                return self._module_attr(self.vmod(fr.V), expr.attr)
-            base = self.eval(expr.value, fr)
-            if UNKNOWN in base or not base:
-                return U
-            out: set = set()
-            for b in base:
-                if isinstance(b, ModVal):
-                    out |= self._module_attr(b.module, expr.attr)
-                elif isinstance(b, ClassVal):
-                    out |= self._class_attr(b.cls, expr.attr)
-                elif isinstance(b, ObjVal):
-                    fv = b.get(expr.attr)
-                    if fv is None:
-                        return U
-                    out |= fv
-                else:
-                    return U
-            return frozenset(out)
+            return self._attr_of(expr.value, expr.attr, fr)
         if isinstance(expr, ast.IfExp):
             t = self.truth(expr.test, fr)
             if t is True:
@@ -514,6 +542,31 @@ class Interp:
                     return U
             return frozenset(out) if out else U
         return U
+
+    def _attr_of(self, value: ast.expr, attr: str, fr: Frame) -> frozenset:
+        """Abstract value of `<value>.<attr>` (also used for getattr(<value>, "<attr>"))."""
+        p = self.prog
+        U = frozenset([UNKNOWN])
+        bt = p.type_of(fr.module, value) if p._with_facts else None
+        if bt == PROTOCOL_TYPE and fr.V is not None:
+            return self._module_attr(self.vmod(fr.V), attr)
+        base = self.eval(value, fr)
+        if UNKNOWN in base or not base:
+            return U
+        out: set = set()
+        for b in base:
+            if isinstance(b, ModVal):
+                out |= self._module_attr(b.module, attr)
+            elif isinstance(b, ClassVal):
+                out |= self._class_attr(b.cls, attr)
+            elif isinstance(b, ObjVal):
+                fv = b.get(attr)
+                if fv is None:
+                    return U
+                out |= fv
+            else:
+                return U
+        return frozenset(out)
 
     def _comp_bound(self, name: ast.Name) -> bool:
         """Is this Name bound by an enclosing comprehension (its own scope)?"""
@@ -760,6 +813,14 @@ class Interp:
         """getattr(<class>, f"prefix{<enumvar>.name[.lower()]}", [default])."""
         if not (isinstance(call.func, ast.Name) and call.func.id == "getattr" and len(call.args) in (2, 3)):
             return None
+        # getattr(x, "Name") with a constant name (possibly a parameter bound to a constant) is plain x.Name
+        if len(call.args) == 2 and not isinstance(call.args[1], ast.JoinedStr):
+            nv = self.eval(call.args[1], fr)
+            if nv and all(isinstance(v, Const) and isinstance(v.value, str) for v in nv):
+                out0: set = set()
+                for v in nv:
+                    out0 |= self._attr_of(call.args[0], v.value, fr)
+                return frozenset(out0)
         info = self.getattr_idiom_info(call, fr)
         if info is None:
             return frozenset([UNKNOWN])
@@ -1033,6 +1094,8 @@ class Interp:
                     pairs.append((kw.arg, kw.value))
             sels = [(k[5:], v) for k, v in callee.env if k.startswith("@sel:")]
             bound = set()
+            # `f(data=_require(data))` where _require returns its argument: the argument itself
+            pairs = [(name, self.passthrough_arg(a, fr)) for name, a in pairs]
             for name, a in pairs:
                 bound.add(name)
                 vals = self.eval(a, fr)
@@ -1074,6 +1137,43 @@ class Interp:
                     env.append((name, frozenset([Const(d.value)])))
         return Frame(callee, V, tuple(env), frozenset(tainted), frozenset(out_facts))
 
+    def passthrough_arg(self, a: ast.expr, fr: Frame, depth: int = 0) -> ast.expr:
+        """For a call of a repository function every `return` of which returns one and the same parameter
+        (a checking helper such as `_require_data(data)`), the argument expression bound to that parameter."""
+        if isinstance(a, ast.Name) and a.id not in fr.func.params and depth <= 2:
+            # a local bound once to such a call (`message_data = _require_data(data)`)
+            la = self.local_assigns(fr.func).get(a.id) or []
+            if len(la) == 1 and isinstance(la[0], ast.Call):
+                r = self.passthrough_arg(la[0], fr, depth + 1)
+                if r is not la[0]:
+                    return r
+            return a
+        if not isinstance(a, ast.Call) or depth > 2 or not isinstance(a.func, (ast.Name, ast.Attribute)):
+            return a
+        h = None
+        if isinstance(a.func, ast.Name):
+            d = self.prog.resolve_name(fr.module, a.func.id)
+            if d is not None and d.kind == "func":
+                h = d.obj
+        elif isinstance(a.func.value, ast.Name) and a.func.value.id in ("cls", "self") and fr.func.cls is not None:
+            h = fr.func.cls.find_method(a.func.attr)
+        if h is None or h.is_async or h.node.args.vararg or h.node.args.kwarg:
+            return a
+        rets = self.return_exprs(h)
+        if not rets or not all(isinstance(r, ast.Name) for r in rets) or len({r.id for r in rets}) != 1:
+            return a
+        prm = rets[0].id
+        if prm not in h.params or len(self.local_assigns(h).get(prm) or []) > 0:
+            return a
+        params = [p for p in h.positional_params if not (p in ("self", "cls") and h.cls is not None)]
+        amap = dict(zip(params, a.args))
+        for kw in a.keywords:
+            if kw.arg:
+                amap[kw.arg] = kw.value
+        if prm in amap and not isinstance(amap[prm], ast.Starred):
+            return self.passthrough_arg(amap[prm], fr, depth + 1)
+        return a
+
     def _is_wrapper(self, f: FuncInfo) -> bool:
         return f.parent is not None and f.parent.cls is None and f.name in f.parent.nested
 
@@ -1107,6 +1207,20 @@ class Interp:
         if not out:
             raise AnalysisError(f"abstract method {f.fq} has no implementation in the package")
         return out
+
+    def external_method_names(self) -> set:
+        """Full names of external callees that some call in the package resolves to (per mypy)."""
+        c = self.__dict__.get("_ext_names")
+        if c is None:
+            c = set()
+            for m in self.prog.modules.values():
+                _, cf, _ = self.prog._mod_index(m)
+                for lst in cf.values():
+                    for f in lst:
+                        if f[0]:
+                            c.update(f[0].split("|"))
+            self.__dict__["_ext_names"] = c
+        return c
 
     def resolve_call(self, call: ast.Call, fr: Frame, for_value: bool = False, facts: frozenset = frozenset()) -> list[Target]:
         self._facts_ctx = facts
@@ -1163,6 +1277,23 @@ class Interp:
                         if cm is not None:
                             return [Target("repo", frame=self.bind_call(self.make_callee(cm, d.obj), call, fr, fr.V, facts=self._facts_ctx))]
                 return [Target("external", fullname=f"{base}.__call__", argtypes=argtypes)]
+            # a local bound once to a bound method (`read = self.transport.read` ... `await read()`)
+            if isinstance(fn, ast.Name):
+                la = self.local_assigns(fr.func).get(fn.id) or []
+                if len(la) == 1 and isinstance(la[0], ast.Attribute):
+                    bt = (p.type_of(m, la[0].value) or "").split("[")[0]
+                    d = p.lookup_fullname(bt) if bt.startswith(PKG + ".") else None
+                    if d is not None and d.kind == "class":
+                        meth = d.obj.find_method(la[0].attr)
+                        if meth is not None and meth.cls is not None:
+                            outs = self._target_for_fullname(f"{meth.cls.fq}.{la[0].attr}", "method", call, fr, argtypes)
+                            if outs:
+                                return outs
+                        exts = [b for b in (p.facts.get("mro", {}).get(bt) or []) if not b.startswith(PKG + ".")]
+                        if meth is None and exts:
+                            known = [b for b in exts if f"{b}.{la[0].attr}" in self.external_method_names()]
+                            if known:
+                                return self._target_for_fullname(f"{known[0]}.{la[0].attr}", "method", call, fr, argtypes)
             return [Target("unknown", note=f"unresolved callee {norm(fn)[:60]} : {t}")]
         outs: list[Target] = []
         for one in full.split("|"):
